@@ -141,3 +141,100 @@ package aggregate
 //@   loop 0 invariant[C04] parameter-of-step-or-NaN: forall j in 0..rangeindex+1 :: a.params[j] == ite(j < len(args), args[j].Samples[0], nan())
 //@   loop 1 invariant a != nil && a.next != nil && a.paramOp != nil && len(in) <= len(a.params) && len(in) <= len(args) && !isnil(in) && kInv(a) && heapsEmpty(a) && len(a.inputToHeap) == a.next.nSeries &&
 //@       len(result) == rangeindex + 1
+
+// ---- scalar_table.go: the accumulators of the grouped aggregation table (C04, C07) ----------------
+// Every accumulator follows one protocol (statement of C04/C07: each step is reduced on its own):
+// Reset forgets everything (no value afterwards), AddFunc makes it have a value, HasValue reports
+// that, and for sum / count / max / min / avg / group the value is the reference engine's fold of the
+// samples added since the last Reset (max/min: a NaN is replaced by any later sample and never
+// replaces one; float arithmetic uninterpreted). Closures are numbered in source order:
+// makeAccumulatorFunc$N is the constructor of the N-th case, $N$1..$N$4 its AddFunc, ValueFunc,
+// HasValue and Reset.
+//@ func makeAccumulatorFunc$1$1
+//@   ensures[C04] sum-add-has-value: hasValue
+//@   ensures[C04] sum-add-folds-the-sample: value == old(value) + v
+//@ func makeAccumulatorFunc$1$2
+//@   ensures[C04] sum-value: result == value
+//@ func makeAccumulatorFunc$1$3
+//@   ensures[C04,C07] sum-has-value-reports: result == hasValue
+//@ func makeAccumulatorFunc$1$4
+//@   ensures[C04,C07] sum-reset-forgets: !hasValue
+//@   ensures[C04,C07] sum-reset-clears-the-state: value == 0.0
+//@ func makeAccumulatorFunc$2$1
+//@   ensures[C04] max-add-has-value: hasValue
+//@   ensures[C04] max-add-folds-the-sample: value == ite(!old(hasValue) || old(value) < v || isnan(old(value)), v, old(value))
+//@ func makeAccumulatorFunc$2$2
+//@   ensures[C04] max-value: result == value
+//@ func makeAccumulatorFunc$2$3
+//@   ensures[C04,C07] max-has-value-reports: result == hasValue
+//@ func makeAccumulatorFunc$2$4
+//@   ensures[C04,C07] max-reset-forgets: !hasValue
+//@   ensures[C04,C07] max-reset-clears-the-state: value == 0.0
+//@ func makeAccumulatorFunc$3$1
+//@   ensures[C04] min-add-has-value: hasValue
+//@   ensures[C04] min-add-folds-the-sample: value == ite(!old(hasValue) || old(value) > v || isnan(old(value)), v, old(value))
+//@ func makeAccumulatorFunc$3$2
+//@   ensures[C04] min-value: result == value
+//@ func makeAccumulatorFunc$3$3
+//@   ensures[C04,C07] min-has-value-reports: result == hasValue
+//@ func makeAccumulatorFunc$3$4
+//@   ensures[C04,C07] min-reset-forgets: !hasValue
+//@   ensures[C04,C07] min-reset-clears-the-state: value == 0.0
+//@ func makeAccumulatorFunc$4$1
+//@   ensures[C04] count-add-has-value: hasValue
+//@   ensures[C04] count-add-folds-the-sample: value == old(value) + 1.0
+//@ func makeAccumulatorFunc$4$2
+//@   ensures[C04] count-value: result == value
+//@ func makeAccumulatorFunc$4$3
+//@   ensures[C04,C07] count-has-value-reports: result == hasValue
+//@ func makeAccumulatorFunc$4$4
+//@   ensures[C04,C07] count-reset-forgets: !hasValue
+//@   ensures[C04,C07] count-reset-clears-the-state: value == 0.0
+//@ func makeAccumulatorFunc$5$1
+//@   ensures[C04] avg-add-has-value: hasValue
+//@   ensures[C04] avg-add-folds-the-sample: sum == old(sum) + v && count == old(count) + 1.0
+//@ func makeAccumulatorFunc$5$2
+//@   ensures[C04] avg-value: result == sum / count
+//@ func makeAccumulatorFunc$5$3
+//@   ensures[C04,C07] avg-has-value-reports: result == hasValue
+//@ func makeAccumulatorFunc$5$4
+//@   ensures[C04,C07] avg-reset-forgets: !hasValue
+//@   ensures[C04,C07] avg-reset-clears-the-state: sum == 0.0 && count == 0.0
+//@ func makeAccumulatorFunc$6$1
+//@   ensures[C04] group-add-has-value: hasValue
+//@ func makeAccumulatorFunc$6$2
+//@   ensures[C04] group-value: result == 1.0
+//@ func makeAccumulatorFunc$6$3
+//@   ensures[C04,C07] group-has-value-reports: result == hasValue
+//@ func makeAccumulatorFunc$6$4
+//@   ensures[C04,C07] group-reset-forgets: !hasValue
+//@ func makeAccumulatorFunc$7$1
+//@   ensures[C04] stddev-add-has-value: hasValue
+//@ func makeAccumulatorFunc$7$2
+//@   ensures stddev-value-total: true
+//@ func makeAccumulatorFunc$7$3
+//@   ensures[C04,C07] stddev-has-value-reports: result == hasValue
+//@ func makeAccumulatorFunc$7$4
+//@   ensures[C04,C07] stddev-reset-forgets: !hasValue
+//@ func makeAccumulatorFunc$8$1
+//@   ensures[C04] stdvar-add-has-value: hasValue
+//@ func makeAccumulatorFunc$8$2
+//@   ensures stdvar-value-total: true
+//@ func makeAccumulatorFunc$8$3
+//@   ensures[C04,C07] stdvar-has-value-reports: result == hasValue
+//@ func makeAccumulatorFunc$8$4
+//@   ensures[C04,C07] stdvar-reset-forgets: !hasValue
+//@ func makeAccumulatorFunc$9$1
+//@   ensures[C04] quantile-add-has-value: hasValue
+//@ func makeAccumulatorFunc$9$2
+//@   ensures quantile-value-total: true
+//@ func makeAccumulatorFunc$9$3
+//@   ensures[C04,C07] quantile-has-value-reports: result == hasValue
+//@ func makeAccumulatorFunc$9$4
+//@   ensures[C04,C07] quantile-reset-forgets: !hasValue
+//@   ensures[C04,C07] quantile-reset-clears-the-state: arg == a && len(points) == 0
+// quantile: index arithmetic on floats (floor, max, min of q*(n-1)) - not decidable with uninterpreted
+// float operations; the function is a transcription of promql/quantile.go and is assumed not to panic.
+//@ func quantile
+//@   trusted float index arithmetic is outside the uninterpreted-float model (transcription of the reference's quantile)
+//@   assigns elems(float64)
